@@ -49,7 +49,7 @@ def unitTerms (s : St) (u : UnitRec) : Except Exc String :=
   match u.factors with
   | [] => .error .unmodelled
   | (f0, e0) :: rest =>
-    let sym (f : UId) : String := ((s.unit! f).syms.head?).getD "None"
+    let sym (f : UId) : String := ((s.symsOf f).head?).getD "None"
     let p := u.pfx       -- unit.prefix * factor.prefix, the factor being a base unit
     match p.root e0 with
     | .error _ => .error .unmodelled
@@ -61,7 +61,7 @@ def unitTerms (s : St) (u : UnitRec) : Except Exc String :=
 /-- `formatting.unit_str`. -/
 def unitStrPure (s : St) (i : UId) : Except Exc String :=
   let u := s.unit! i
-  match u.syms.head? with
+  match (s.symsOf i).head? with
   | some y => .ok y
   | none => unitTerms s u
 
